@@ -7,5 +7,5 @@ patch="$1"; shift; [ "$1" = "--" ] && shift
 if [ -n "$(git -C /repo status --porcelain --untracked-files=no)" ]; then echo "with-patch: /repo is dirty, refusing"; exit 2; fi
 git -C /repo apply $rev "$(realpath "$patch")" || { echo "with-patch: patch does not apply"; exit 2; }
 "$@"; rc=$?
-git -C /repo checkout -- . 
+git -C /repo checkout -- . && git -C /repo clean -fdq -- src
 exit $rc
